@@ -709,6 +709,8 @@ def check_csv(ctx, rng, idx, tmp, cases):
         if dict(h.dataset.attributes) != wantg:
             ctx.oracle_fail("side-car global attributes not attached", case, dict(h.dataset.attributes), wantg)
         for c in header:
+            if c not in cols:
+                continue        # (already reported: the columns are not the header names)
             want = sidecar.get("sequence", {}).get(c, {})
             if dict(seq[c].attributes) != want:
                 ctx.oracle_fail("side-car column attributes not attached", case, {c: dict(seq[c].attributes)}, {c: want})
